@@ -1,7 +1,7 @@
 """C06 - functions and scopes: locals stay local, everything else is global."""
 from runner import Prop, Case
 import gen, vlib
-from gen import enc_value
+from gen import enc_value, enc_struct
 
 TEMPLATES = [
     # (script, expected value, expected vars subset {name: value} or None, class)
@@ -100,6 +100,25 @@ class C06(Prop):
             f = gen.struct_case(rng, src, ["prepare:" + rng.choice(["opt", "noopt"]), "exec:0", "exec:0"] +
                                 ["getvar:" + vlib.hx(v) for v in ("a", "b", "x", "n", "p")])
             out.append(Case("run", f, "random", nontrivial="function" in src))
+        # a run that is aborted INSIDE a user function - by a Go panic (integer % 0, panic(), a panicking host function), a run-time
+        # error or normally - and then the same evaluator again: the next runs start from the main program with no frame left over
+        for _ in range(2000 if tier == "thorough" else 150):
+            boom = rng.choice(["r = a % b;", "if (b == 0) { panic(\"stop\"); } r = a % b;", "if (b == 0) { hp(); } r = a % b;", "if (b == 0) { r = a + \"x\"; } r = a % b;",
+                               "if (b == 0) { return nosuch(1); } r = a % b;"])
+            inner = rng.choice(["%s", "foreach i in [1, 2] { %s }", "if (a > 0) { %s }", "switch (a) { case 0 { } default { %s } }"]) % boom
+            outer = rng.choice(["return share(a, b) == 1;", "foreach q in [1] { return share(a, b) == 1; }", "x = share(a, b); return x == 1;"])
+            src = ("function share(a, b) { local r; %s return r; } function check(a, b) { %s } calls = calls + 1; verdict = check(Total, Parts); return verdict;" % (inner, outer))
+            objs = [enc_struct([("Total", 7), ("Parts", 3)]), enc_struct([("Total", 7), ("Parts", 0)]), enc_struct([("Total", 8), ("Parts", 3)])]
+            ops = ["setvar:%s:i0" % vlib.hx("calls"), "addfn:%s:panic" % vlib.hx("hp"), "prepare:" + rng.choice(["opt", "noopt"]), "exec:0", "exec:1"]
+            ops += rng.choice([["exec:0", "run:2"], ["run:2", "exec:0"], ["exec:1", "exec:0", "exec:2"]])
+            ops += ["getvar:" + vlib.hx(v) for v in ("calls", "verdict", "a", "b", "r", "i", "q")]
+            exp = {"o3.class": "ok", "o3.value": "b1"}
+            for j, op in enumerate(ops):
+                if op == "exec:0" and j > 4:
+                    exp["o%d.class" % j] = "ok"; exp["o%d.value" % j] = "b1"; exp["o%d.scopes" % j] = "0"
+                if op == "exec:2":
+                    exp["o%d.class" % j] = "ok"; exp["o%d.value" % j] = "b0"
+            out.append(Case("run", {"script": vlib.hx(src), "objs": ";".join(objs), "ops": ";".join(ops)}, "abort-inside-function", expect=exp, note=src))
         for _ in range(3000 if tier == "thorough" else 300):
             src = shadow_program(rng)
             f = gen.struct_case(rng, src, ["prepare:" + rng.choice(["opt", "noopt"]), "exec:0", "exec:0"] +
